@@ -49,6 +49,7 @@ STANDINS = {
     'github.com/goplus/llgo/runtime/internal/clite/bdwgc': ('bdwgc', 'bdwgc.go'),
     'github.com/goplus/llgo/runtime/internal/clite/pthread/sync': ('psync', 'sync.go'),
     'github.com/goplus/llgo/runtime/internal/clite/pthread': ('pthread', 'pthread.go'),
+    'github.com/goplus/llgo/runtime/internal/lib/sync/atomic': ('latomic', 'atomic.go'),
 }
 
 
@@ -347,3 +348,18 @@ def c04(ctx):
 def c10(ctx):
     q = ctx.quick
     return [rt_job(ctx, 'chan', [H(ctx, 'C10', 'chan_h.go')], unwind=30, deadline_s=900 if q else 3000, extra=['--spurious', '0' if q else '1', '--sched-steps', '300', '--preempt', '2' if q else '3'])]
+
+
+def librt_job(ctx, name, files, **kw):
+    """G job on llgo's replacement of package runtime (runtime/internal/lib/runtime)."""
+    C = _check()
+    kw.setdefault('replay', slice_replay())
+    return C.GJob(name, os.path.join(ctx.repo, 'runtime'), './internal/lib/runtime', 'runtime',
+                  os.path.join(ctx.repo, 'runtime/internal/lib/runtime'), files, tags='llgo', **kw)
+
+
+@prop('C11', level='model_checking', title='semaphores, notify lists, atomics under contention')
+def c11(ctx):
+    q = ctx.quick
+    return [librt_job(ctx, 'sema', [H(ctx, 'C11', 'sema_h.go')], unwind=30, deadline_s=900 if q else 3000,
+                      extra=['--spurious', '0' if q else '1', '--sched-steps', '300', '--preempt', '2' if q else '3'])]
